@@ -11,8 +11,14 @@ operands are converted to SI with the table written below (not with the package'
 operation is done in exact rational arithmetic on SI values and dimension vectors as the property text
 says, and compared with the real result converted to SI by the same table; dimensionally meaningless
 operations must raise.
+PURITY clause (a consequence of the statement: the result depends only on the operands' SI values and dimensions): an
+operator must not modify its operands or earlier results, and equal inputs give equal outputs whatever happened before in
+the process.  Tested by bit-exact operand snapshots around EVERY operation, by a sequence stream (a pool of live operand
+objects re-used over 5-15 consecutive operations, results compared with exact SI arithmetic on the operands' CREATION
+data) and by a collision stream (unit systems whose concatenated labels coincide, e.g. "m"+"ms" = "mm"+"s", used one after
+the other with the same other system and dimension vector).
 """
-import math, numbers, operator, warnings
+import math, numbers, operator, struct, warnings
 from fractions import Fraction
 from common import frac, rstr, rparse, fstr
 from common import close as _close0
@@ -26,7 +32,11 @@ RULE = ("random expression trees (depth <= 3 quick / <= 4 thorough) over UnitVal
         "exponents in [-3,3]^3 (about 3/4 of the + - % and comparison nodes dimensionally valid), array lengths 0..4 with "
         "deliberate mismatches, non-zero magnitudes over +-12 decades, ** with integer exponents -3..3 and 1/2, 1/3, 2/3; "
         "plus an exhaustive table operator x operand-type pairing x same/other system x same/other dimension; "
-        "a case is non-trivial when at least one quantity takes part; distinct by the whole tree")
+        "plus, in the same process, a collision stream (all 30 pairs of unit systems whose concatenated labels coincide x other "
+        "system x dimension vectors with different space/time exponents x 6 operators both ways, first one member then the other) "
+        "and a sequence stream (pools of 4-7 live operands, many in the same system, re-used over 5-15 operations incl. %, each "
+        "result checked against the operands' creation data, every operand and the whole pool checked bit-unchanged); "
+        "a case is non-trivial when at least one quantity takes part; distinct by the whole tree / block / sequence")
 ASSUMPTIONS = [
     "IEEE-754 double arithmetic of CPython/numpy is within 1e-9 relative (to the magnitude of the added terms) of exact arithmetic for these short computations",
     "fractional exponents are the doubles nearest to +-1/2, +-1/3, +-2/3; oracle and model read them as those rationals (the code's float test int(dim*e) is exact for them, probed for |dim| <= 60)",
@@ -190,6 +200,68 @@ def in_range(vals):
     return all(v == 0 or LO <= abs(v) <= HI for v in vals)
 
 
+def usys(x):
+    un = x.units
+    return (un.sys.space, un.sys.time, un.sys.quantity)
+
+
+def udim(x):
+    un = x.units
+    return (un.dim.space, un.dim.time, un.dim.quantity)
+
+
+def snap(E, x):
+    """bit-exact snapshot of an operand: value bits, unit system, dimension"""
+    k = E.kind(x)
+    try:
+        if k == "val":
+            return ("val", struct.pack("<d", float(x.value)), usys(x), udim(x))
+        if k == "arr":
+            return ("arr", x.value.tobytes(), tuple(x.value.shape), str(x.value.dtype), usys(x), udim(x))
+        if k == "num":
+            return ("num", repr(x))
+    except Exception as ex:  # noqa
+        return ("broken", repr(ex)[:80])
+    return ("other", repr(x)[:40])
+
+
+def snap_s(sn):
+    if sn[0] == "val":
+        return "%r %s %s" % (struct.unpack("<d", sn[1])[0], list(sn[2]), list(sn[3]))
+    if sn[0] == "arr":
+        import numpy as np
+        return "%s %s %s" % (np.frombuffer(sn[1], dtype=sn[3]).tolist(), list(sn[4]), list(sn[5]))
+    return repr(sn[1:])
+
+
+def purity(E, op, operands, snaps, r, path, prefix="purity"):
+    """PURITY clause (a consequence of the statement: the result depends only on the operands' SI values and dimensions):
+    an operator must not modify its operands, and its result must not be (or share mutable parts with) an operand"""
+    pairing = "-".join(E.kind(o) for o in operands)
+    for i, (o, s0) in enumerate(zip(operands, snaps)):
+        s1 = snap(E, o)
+        if s1 != s0:
+            E.find("%s:operand-modified:%s:%s" % (prefix, op, pairing),
+                   "%s modified its %s operand: was %s, is %s" % (op, "first" if i == 0 else "second", snap_s(s0), snap_s(s1)),
+                   path, impl=snap_s(s1), expected=snap_s(s0))
+    if isinstance(r, Raised) or E.kind(r) not in ("val", "arr"):
+        return
+    for o in operands:
+        if E.kind(o) not in ("val", "arr"):
+            continue
+        shared = None
+        if r is o:
+            shared = "is the operand object itself"
+        elif r.units is o.units or r.units.sys is o.units.sys or r.units.dim is o.units.dim:
+            shared = "shares its Units object with an operand"
+        elif E.kind(r) == "arr" and E.kind(o) == "arr" and E.np.shares_memory(r.value, o.value):
+            shared = "shares its value array with an operand"
+        if shared:
+            E.find("%s:result-aliases-operand:%s" % (prefix, op), "the result of %s (%s) %s" % (op, pairing, shared), path,
+                   impl=shared, expected="a new object")
+            return
+
+
 def ev(E, node, path="r"):
     """evaluate `node` on the real code, bottom-up, checking the oracle at every node"""
     k = node["k"]
@@ -203,10 +275,12 @@ def ev(E, node, path="r"):
         b = ev(E, node["b"], path + ".b")
         if isinstance(b, Raised):
             return b
+        sn = (snap(E, a), snap(E, b))
         try:
             r = getattr(b, RNAMES[node["op"]])(a)
         except Exception as ex:  # noqa
             r = Raised(ex)
+        purity(E, "r" + node["op"], (a, b), sn, r, path)
         oracle_bin(E, node["op"], a, b, r, path)
         return r
     if k in ("bin", "pow"):
@@ -214,20 +288,24 @@ def ev(E, node, path="r"):
         if isinstance(b, Raised):
             return b
         f = BINOPS[node["op"]] if k == "bin" else operator.pow
+        sn = (snap(E, a), snap(E, b))
         try:
             r = f(a, b)
         except Exception as ex:  # noqa
             r = Raised(ex)
+        purity(E, node["op"] if k == "bin" else "pow", (a, b), sn, r, path)
         if k == "bin":
             oracle_bin(E, node["op"], a, b, r, path)
         else:
             oracle_pow(E, node["b"], a, b, r, path)
         return r
     f = {"neg": operator.neg, "abs": abs, "inv": E.U._inv}[k]
+    sn = (snap(E, a),)
     try:
         r = f(a)
     except Exception as ex:  # noqa
         r = Raised(ex)
+    purity(E, k, (a,), sn, r, path)
     oracle_un(E, k, a, r, path)
     return r
 
@@ -554,6 +632,10 @@ def oracle_cmp(E, op, a, b, r, path, exact_ok):
 
 def run_case(E, case):
     """evaluate one case {"e": tree[, "cmp": op, "b": tree, "exact_ok": bool]} on the real code; returns the canonical result"""
+    if "multi" in case:
+        return run_multi(E, case)
+    if "seq" in case:
+        return run_seq(E, case)
     E.fresh()
     with warnings.catch_warnings():
         warnings.simplefilter("ignore")
@@ -568,10 +650,12 @@ def run_case(E, case):
             b = ev(E, case["b"], "b")
             if isinstance(b, Raised):
                 return E.canon(b)
+            sn = (snap(E, a), snap(E, b))
             try:
                 r = CMPOPS[case["cmp"]](a, b)
             except Exception as ex:  # noqa
                 r = Raised(ex)
+            purity(E, case["cmp"], (a, b), sn, r, "root")
             oracle_cmp(E, case["cmp"], a, b, r, "root", bool(case.get("exact_ok")))
             return E.canon(r)
 
@@ -919,6 +1003,282 @@ def table_cases(rng, E):
 
 
 # ------------------------------------------------------------------------------------------------
+# streams in ONE process: blocks of consecutive cases (`multi`) and sequences over a pool of live, re-used operands (`seq`)
+# ------------------------------------------------------------------------------------------------
+def run_multi(E, case):
+    """consecutive ordinary cases evaluated one after the other in this process (what an earlier case left behind in the
+    package — caches, shared objects — is part of what is tested); findings carry the index of the sub-case"""
+    allf, alln, alls, alle = [], [], [], []
+    for i, sub in enumerate(case["multi"]):
+        run_case(E, sub)
+        allf += [(k, w, "#%d:%s" % (i, p), im, ex) for (k, w, p, im, ex) in E.findings]
+        alln += E.nodes
+        alls += E.skips
+        alle += E.experr
+    E.findings, E.nodes, E.skips, E.experr = allf, alln, alls, alle
+    return {"t": "multi", "n": len(case["multi"])}
+
+
+def leaf_spec(node):
+    """exact SI reading of a leaf from its CREATION DATA (never from the live object)"""
+    if node["t"] == "num":
+        q = Fraction(node["v"])
+        if node.get("py", "float") == "float" or node.get("py") == "npf":
+            q = Fraction(float(q))
+        return {"kind": "num", "vals": [q], "mags": [abs(q)], "dim": None, "sys": None}
+    x = node["x"] if node["t"] == "val" else node["xs"]
+    sy = x["u"]["sys"]
+    sys = (sy["space"], sy["time"], sy["quantity"])
+    dim = tuple(x["u"]["dim"])
+    f = si_factor(sys, dim)
+    vs = [Fraction(float(Fraction(v))) * f for v in ([x["v"]] if node["t"] == "val" else x["vs"])]
+    return {"kind": node["t"], "vals": vs, "mags": [abs(v) for v in vs], "dim": dim, "sys": sys}
+
+
+def spec_op(op, A, B=None):
+    """exact SI arithmetic on specs: ("ok", spec) | ("bool", b) | ("raise", why) | ("skip", why)"""
+    if op in ("neg", "abs"):
+        f = (lambda v: -v) if op == "neg" else abs
+        return "ok", dict(A, vals=[f(v) for v in A["vals"]], sys=None if A["kind"] != "num" else None)
+    qa, qb = A["kind"] != "num", B["kind"] != "num"
+    if not qa and not qb:
+        return "skip", "numbers"
+    additive = op in ADDITIVE or op in CMPOPS
+    av, am, bv, bm = A["vals"], A["mags"], B["vals"], B["mags"]
+    if additive and qa and qb and tuple(A["dim"]) != tuple(B["dim"]):
+        if op == "eq":
+            return "bool", False
+        if op == "ne":
+            return "bool", True
+        return "raise", "dim"
+    if A["kind"] == "arr" and B["kind"] == "arr" and len(av) != len(bv):
+        return "raise", "len"
+    if additive and qa != qb:
+        other = A if qa else B
+        if other["sys"] is None:
+            return "skip", "number-next-to-derived"   # the property leaves the units of a derived result open
+        u = si_factor(other["sys"], other["dim"])
+        if qa:
+            bv, bm = [bv[0] * u], [bm[0] * u]
+        else:
+            av, am = [av[0] * u], [am[0] * u]
+    if op in CMPOPS:
+        if "arr" in (A["kind"], B["kind"]):
+            # == / != with an array is object identity (UnitArray defines no comparison): not claimed
+            return ("skip", "array-identity") if op in ("eq", "ne") else ("raise", "cmp-array")
+        x, y = av[0], bv[0]
+        if x != y and abs(x - y) <= Fraction(1, 10 ** 6) * (am[0] + bm[0]):
+            return "skip", "ambiguous"
+        if x == y and not ((qa != qb) or (A["sys"] is not None and A["sys"] == B["sys"])):
+            return "skip", "ambiguous"      # equal SI values in different systems: the float conversion need not be exact
+        return "bool", {"eq": x == y, "ne": x != y, "lt": x < y, "le": x <= y, "gt": x > y, "ge": x >= y}[op]
+    if op in ("div", "mod") and any(v == 0 for v in bv):
+        return "skip", "zero-divisor"
+    n = len(av) if A["kind"] == "arr" else (len(bv) if B["kind"] == "arr" else 1)
+    vals, mags = [], []
+    for i in range(n):
+        x, y, mx, my = _bc(av, i), _bc(bv, i), _bc(am, i), _bc(bm, i)
+        if op == "add":
+            vals.append(x + y); mags.append(mx + my)
+        elif op == "sub":
+            vals.append(x - y); mags.append(mx + my)
+        elif op == "mul":
+            vals.append(x * y); mags.append(mx * my)
+        elif op == "div":
+            vals.append(x / y); mags.append(mx * my / (y * y))
+        else:
+            q = x / y
+            mq = mx * my / (y * y)
+            fl = math.floor(q)
+            if abs(q) > 10 ** 8 or (q != 0 and min(q - fl, fl + 1 - q) < Fraction(1, 10 ** 9) * max(mq, abs(q))):
+                return "skip", "ambiguous"
+            vals.append(x - y * fl); mags.append(mx + my * abs(fl))
+    if op == "mul":
+        dim = tuple(x + y for x, y in zip(A["dim"] or (0, 0, 0), B["dim"] or (0, 0, 0)))
+    elif op == "div":
+        dim = tuple(x - y for x, y in zip(A["dim"] or (0, 0, 0), B["dim"] or (0, 0, 0)))
+    else:
+        dim = tuple(A["dim"] if qa else B["dim"])
+    return "ok", {"kind": "arr" if "arr" in (A["kind"], B["kind"]) else "val", "vals": vals, "mags": mags, "dim": dim, "sys": None}
+
+
+def run_seq(E, case):
+    """a sequence of operations over a pool of LIVE operand objects that are re-used; every result is compared with exact SI
+    arithmetic on the operands' creation data, every operand must stay bit-unchanged, and so must the whole pool"""
+    E.fresh()
+    seq = case["seq"]
+    with warnings.catch_warnings():
+        warnings.simplefilter("ignore")
+        with E.np.errstate(all="ignore"):
+            objs = [E.leaf(n) for n in seq["pool"]]
+            specs = [leaf_spec(n) for n in seq["pool"]]
+            born = [snap(E, o) for o in objs]
+            for k, o in enumerate(seq["ops"]):
+                op, path = o["op"], "op%d" % k
+                idx = [o["a"]] + ([o["b"]] if "b" in o else [])
+                if any(objs[i] is None for i in idx):
+                    objs.append(None); specs.append(None); born.append(None)
+                    continue
+                operands = tuple(objs[i] for i in idx)
+                sp = [specs[i] for i in idx]
+                sn = tuple(snap(E, x) for x in operands)
+                f = BINOPS.get(op) or CMPOPS.get(op) or {"neg": operator.neg, "abs": abs}[op]
+                try:
+                    r = f(*operands)
+                except Exception as ex:  # noqa
+                    r = Raised(ex)
+                pairing = "-".join(E.kind(x) for x in operands)
+                E.nodes.append((op, pairing))
+                purity(E, op, operands, sn, r, path)
+                for j, (ob, b0) in enumerate(zip(objs, born)):
+                    if ob is not None and snap(E, ob) != b0:
+                        E.find("purity:pool-modified:%s" % op, "after %s (%s) pool entry %d reads %s, it was created as %s" % (
+                            op, pairing, j, snap_s(snap(E, ob)), snap_s(b0)), path, impl=snap_s(snap(E, ob)), expected=snap_s(b0))
+                        born[j] = snap(E, ob)   # report once
+                what, exp = spec_op(op, *sp)
+                key0 = "sequence:%s:%s" % (op, pairing)
+                keep = None
+                if what == "skip":
+                    E.skips.append("seq-%s-%s" % (exp, op) if exp == "ambiguous" else ("zero-divisor" if exp == "zero-divisor" else "seq-" + exp))
+                elif what == "raise":
+                    E.experr.append(exp)
+                    if not isinstance(r, Raised):
+                        E.find(key0 + ":not-raised:" + exp, "%s of %s did not raise" % (op, pairing), path, impl=E.canon(r), expected="exception")
+                elif isinstance(r, Raised):
+                    E.find(key0 + ":raised", "%s of %s (valid) raised %s" % (op, pairing, type(r.exc).__name__), path, impl=E.canon(r))
+                elif what == "bool":
+                    if not isinstance(r, (bool, E.np.bool_)) or bool(r) != exp:
+                        E.find(key0 + ":value", "%s of %s is %r; exact SI arithmetic on the operands as created gives %s" % (op, pairing, r, exp),
+                               path, impl=E.canon(r), expected=exp)
+                else:
+                    pr = E.pay(r) if E.kind(r) in ("val", "arr") else None
+                    if E.kind(r) != exp["kind"]:
+                        E.find(key0 + ":kind", "%s of %s returned a %s" % (op, pairing, type(r).__name__), path, impl=E.canon(r), expected=exp["kind"])
+                    elif pr is None or not in_range(pr[3]):
+                        E.skips.append("range")
+                    elif tuple(pr[1]) != tuple(exp["dim"]):
+                        E.find(key0 + ":dim", "%s of %s has dimension %s, expected %s" % (op, pairing, list(pr[1]), list(exp["dim"])), path,
+                               impl=E.canon(r), expected={"dim": exp["dim"]})
+                    elif len(pr[0]) != len(exp["vals"]) or not all(qclose(v, q, m) for v, q, m in zip(pr[0], exp["vals"], exp["mags"])):
+                        E.find(key0 + ":value", "%s of %s: SI value %s; exact SI arithmetic on the operands as created gives %s" % (
+                            op, pairing, [fstr(v) for v in pr[0]], [fstr(v) for v in exp["vals"]]), path, impl=E.canon(r),
+                            expected={"dim": exp["dim"], "si": [rstr(v) for v in exp["vals"]]})
+                    else:
+                        keep = r
+                if o.get("keep") and keep is not None:
+                    objs.append(keep); specs.append(exp); born.append(snap(E, keep))
+                else:
+                    objs.append(None); specs.append(None); born.append(None)
+    return {"t": "seq", "n": len(seq["ops"])}
+
+
+def seq_cases(rng, n):
+    out = []
+    for _ in range(n):
+        dims = [rand_dim(rng)]
+        if rng.random() < 0.3:
+            dims.append(other_dim(rng, dims[0]))
+        systems = [rand_sys(rng) for _ in range(rng.choice([1, 2, 2, 3]))]
+        base = rand_mag(rng) * si_factor(systems[0], dims[0])
+        L = rng.randint(1, 3)
+        pool = []
+        for i in range(rng.randint(4, 7)):
+            kind = rng.choice(["val"] * 5 + ["arr"] * 2 + ["num"])
+            if kind == "num" and i > 0:
+                pool.append(num_leaf(rng, None if rng.random() < 0.5 else abs(Fraction(rng.randint(2, 900), 7)), False))
+                continue
+            kind = "val" if kind == "num" else kind
+            d = dims[0] if rng.random() < 0.85 else rng.choice(dims)
+            sy = rng.choice(systems)
+            tgt = base * Fraction(10) ** rng.randint(-2, 2) * si_factor(sy, d) / si_factor(systems[0], dims[0])
+            pool.append(qty_leaf(rng, kind, d, L, si_target=abs(tgt), sys=sy))
+        specs = [leaf_spec(nd) for nd in pool]
+        ops = []
+        for _ in range(rng.randint(5, 15)):
+            alive = [i for i, sp in enumerate(specs) if sp is not None]
+            op = rng.choice(["add"] * 3 + ["sub"] * 3 + ["mod"] * 6 + ["mul"] * 2 + ["div"] * 2 + ["neg", "abs", "lt", "ge", "eq", "gt"])
+            a = rng.choice(alive)
+            if op in ("neg", "abs"):
+                o = {"op": op, "a": a}
+                what, sp = spec_op(op, specs[a])
+            else:
+                same = [i for i in alive if specs[i]["kind"] != "num" and specs[a]["dim"] is not None and specs[i]["dim"] == specs[a]["dim"]]
+                b = rng.choice(same) if (same and rng.random() < 0.85) else rng.choice(alive)
+                if op == "mod":
+                    # a modulus that gives a well-defined floor (quotient moderate and away from an integer); else fall back to +
+                    good = [i for i in same if i != a and spec_op("mod", specs[a], specs[i])[0] == "ok"]
+                    if good:
+                        b = rng.choice(good)
+                    elif rng.random() < 0.9:
+                        op = "add"
+                o = {"op": op, "a": a, "b": b}
+                what, sp = spec_op(op, specs[a], specs[b])
+            if what == "skip" and sp in ("numbers", "number-next-to-derived"):
+                continue
+            o["keep"] = bool(what == "ok" and rng.random() < 0.5)
+            ops.append(o)
+            specs.append(sp if o["keep"] else None)
+        out.append({"seq": {"pool": pool, "ops": ops}})
+    return out
+
+
+def label_collisions():
+    """all pairs of the 1100 unit systems whose labels coincide when joined (without a separator, or with a plausible one)"""
+    pairs = set()
+    for sep in ["", " ", ".", "/", "_", "-", ",", "|"]:
+        groups = {}
+        for a in SPACE:
+            for b in TIME:
+                for c in QTY:
+                    groups.setdefault(sep.join((a, b, c)), []).append((a, b, c))
+        for g in groups.values():
+            for i in range(len(g)):
+                for j in range(i + 1, len(g)):
+                    pairs.add((g[i], g[j]))
+    return sorted(pairs)
+
+
+def collision_cases(rng, npairs, ndims):
+    """for unit systems whose labels collide when concatenated ("m"+"ms" = "mm"+"s" ...): the same operations with the same
+    other system and the same dimension vector, first with one member of the pair, then with the other — one block, one process"""
+    pairs = label_collisions()
+    rng.shuffle(pairs)
+    dimpool = [(1, -1, 0), (2, -1, 0), (-1, 1, 1), (1, -2, 1), (-3, 1, 1), (1, 0, -1), (0, 1, -1), (3, -1, -2), (-1, 2, 0)]
+    out = []
+    for (S1, S2) in pairs[:npairs]:
+        T = rand_sys(rng)
+        while T in (S1, S2):
+            T = rand_sys(rng)
+        for bi, d in enumerate(rng.sample(dimpool, ndims)):
+            order = (S1, S2) if bi % 2 == 0 else (S2, S1)
+            subs = []
+            base = rand_mag(rng)
+            for S in order:
+                x = qty_leaf(rng, "val", d, 1, si_target=base, sys=S)
+                for op in ["add", "sub", "mul", "div", "mod", "lt"]:
+                    xs = leaf_spec(x)["vals"][0]
+                    if op == "mod":
+                        q0 = rng.choice([0, 1, 3, 17]) + Fraction(rng.randint(150000, 850000), 1000003)
+                        y = qty_leaf(rng, "val", d, 1, si_target=abs(xs) / q0, sys=T, exact=True)
+                        y2 = qty_leaf(rng, "val", d, 1, si_target=abs(xs) * q0, sys=T, exact=True)
+                    else:
+                        y = qty_leaf(rng, "val", d, 1, si_target=abs(xs), sys=T)
+                        y2 = y
+                    if op in CMPOPS:
+                        subs.append({"e": x, "cmp": op, "b": y})
+                        subs.append({"e": y, "cmp": op, "b": x})
+                    else:
+                        subs.append({"e": {"k": "bin", "op": op, "a": x, "b": y}})
+                        subs.append({"e": {"k": "bin", "op": op, "a": y2, "b": x}})
+                arr = qty_leaf(rng, "arr", d, 2, si_target=base, sys=S)
+                yv = qty_leaf(rng, "val", d, 1, si_target=base, sys=T)
+                subs.append({"e": {"k": "bin", "op": "add", "a": arr, "b": yv}})
+                subs.append({"e": {"k": "bin", "op": "sub", "a": yv, "b": arr}})
+            out.append({"multi": subs, "stream": "collision"})
+    return out
+
+
+# ------------------------------------------------------------------------------------------------
 # correspondence
 # ------------------------------------------------------------------------------------------------
 def strip(node):
@@ -1019,11 +1379,17 @@ def process(ctx, E, cases, label):
         for s in E.experr:
             ctx.count("expected_error_" + s)
         ctx.count("oracle_nodes", len(E.nodes))
-    res = []
+    res = [None] * len(cases)
+    idx = [i for i, c in enumerate(cases) if "e" in c]      # the streams (multi / seq) are oracle only: the model is pure by construction
     B = 1500
-    for i in range(0, len(cases), B):
-        res += ctx.model.run([model_op(c) for c in cases[i:i + B]])
+    for i in range(0, len(idx), B):
+        part = idx[i:i + B]
+        for j, r in zip(part, ctx.model.run([model_op(cases[j]) for j in part])):
+            res[j] = r
     for case, got, fs, sk, r in zip(cases, gots, finds, skips, res):
+        if "e" not in case:
+            process_stream(ctx, case, got, fs, label)
+            continue
         nontriv = has_quantity(case["e"]) or ("b" in case and has_quantity(case["b"]))
         ctx.case(rstr(0) + repr(case), nontrivial=nontriv, sample={"op": "expr", "case": case, "impl": got})
         ctx.count(label)
@@ -1043,6 +1409,25 @@ def process(ctx, E, cases, label):
             ctx.disagree("expr", {"case": case}, got, r, note=why)
 
 
+def process_stream(ctx, case, got, fs, label):
+    ctx.case(repr(case), nontrivial=True, sample=None)
+    ctx.count(label)
+    ctx.count(label + "_operations", got["n"])
+    for key, what, path, impl, expected in fs:
+        if "multi" in case:
+            i = int(path[1:path.index(":")])
+            rec = {"multi": case["multi"][:i + 1], "stream": case.get("stream")}
+            if case.get("stream") == "collision" and not key.startswith("purity"):
+                parts = key.split(":")
+                key = "collision:%s:%s" % (parts[0], parts[-1])
+        else:
+            k = int(path[2:])
+            rec = {"seq": {"pool": case["seq"]["pool"], "ops": case["seq"]["ops"][:k + 1]}}
+        ctx.count("oracle_fail_" + key)
+        if ctx.stats["oracle_fail_" + key] <= 2:
+            ctx.violation(key, what + " (step %s)" % path, {"case": rec, "node": path}, impl=impl, expected=expected)
+
+
 def run(ctx):
     E = Env()
     rng = ctx.rng
@@ -1058,6 +1443,16 @@ def run(ctx):
     ctx.notes.append("the reflected methods are also called directly with a quantity argument (b.__rsub__(a) etc., never done by Python's "
                      "dispatch): model (rdunder applied literally) and oracle.")
     ctx.notes.append("UnitArray ** n raises NotImplementedError always (documented); the statement's ** is on scalar quantities.")
+    ctx.notes.append("PURITY clause tested by every stream (a consequence of the statement: the result depends only on the operands' SI "
+                     "values and dimensions): an operator must not modify its operands or earlier results, its result is a new object "
+                     "sharing no Units / array with an operand, and equal inputs give equal outputs whatever happened before in the "
+                     "process. Checked after EVERY operation of every tree (operand snapshots, bit-exact), in the sequence stream (a pool "
+                     "of live re-used operands, results compared with exact SI arithmetic on the operands' creation data) and in the "
+                     "collision stream (unit systems whose concatenated labels coincide, same other system and dimension vector, one "
+                     "after the other). The streams are oracle only: the Lean model is pure by construction (no state to compare).")
+    # 0. streams in one process: label collisions, sequences over re-used operands
+    process(ctx, E, collision_cases(rng, ctx.n(12, 10 ** 6), ctx.n(2, 4)), "collision_blocks")
+    process(ctx, E, seq_cases(rng, ctx.n(400, 8000)), "sequences")
     # 1. exhaustive table
     process(ctx, E, table_cases(rng, E), "table_cases")
     # 2. random trees
